@@ -11,4 +11,4 @@ case "$chg" in
   *) (cd "$d" && patch -p1 -s < "$chg") || { echo "patch failed"; exit 3; } ;;
 esac
 (cd "$d" && GOFLAGS=-mod=mod GOPROXY=off GOSUMDB=off go build ./... ) || { echo "mutant does not compile"; exit 3; }
-PIKEVC_REPO="$d" GOFLAGS=-mod=mod /verif/bin/pikevc "$@" 2>&1 | sed "s#$d/##g"
+PIKEVC_REPO="$d" PIKEVC_OUT="$d/.out" GOFLAGS=-mod=mod /verif/bin/pikevc "$@" 2>&1 | sed "s#$d/##g"
